@@ -125,7 +125,9 @@ func evkLeaf(c *engine.Chooser, name string, k cfg) {
 
 	if k.proto == "evk" {
 		protos := mp.Instances(inst, k.n, func() multiparty.EvaluationKeyGenProtocol { return multiparty.NewEvaluationKeyGenProtocol(params) },
-			func(p multiparty.EvaluationKeyGenProtocol) multiparty.EvaluationKeyGenProtocol { return p.ShallowCopy() })
+			func(p multiparty.EvaluationKeyGenProtocol) multiparty.EvaluationKeyGenProtocol {
+				return p.ShallowCopy()
+			})
 		crps := make([]multiparty.EvaluationKeyGenCRP, k.n)
 		shares := make([]multiparty.EvaluationKeyGenShare, k.n)
 		for i := range protos {
@@ -152,7 +154,9 @@ func evkLeaf(c *engine.Chooser, name string, k cfg) {
 		}
 		c.Cover("crs", "replayed")
 		coverDigits(c, &shares[0].GadgetCiphertext)
-		flat := func(s multiparty.EvaluationKeyGenShare) mp.Flat { return mp.FlatGadget(params, &s.GadgetCiphertext, "evk") }
+		flat := func(s multiparty.EvaluationKeyGenShare) mp.Flat {
+			return mp.FlatGadget(params, &s.GadgetCiphertext, "evk")
+		}
 		ops := mp.Ops[multiparty.EvaluationKeyGenShare]{
 			Sig: sig, Key: name,
 			New: func() multiparty.EvaluationKeyGenShare { return protos[0].AllocateShare(evkp) },
@@ -321,8 +325,8 @@ func evkLeaf(c *engine.Chooser, name string, k cfg) {
 	// functional oracle: the key re-encrypts from the ideal input secret to the ideal output secret
 	uni.Seed(c, name, "use")
 	E := new(big.Int).Mul(big.NewInt(int64(k.n)), mp.XeSup(params.Xe())) // key noise: sum of N errors
-	S := big.NewInt(int64(k.n))                                            // ideal secret: sum of N ternary keys
-	B := mp.XeSup(params.Xe())                                             // input ciphertext: one fresh error
+	S := big.NewInt(int64(k.n))                                          // ideal secret: sum of N ternary keys
+	B := mp.XeSup(params.Xe())                                           // input ciphertext: one fresh error
 	what := map[string]string{"evk": "evk-reencrypt", "gal": "gal-automorphism"}[k.proto]
 	// use applies the key to a fresh ciphertext of a uniform plaintext under the ideal input secret and
 	// returns the distance of the phase under the ideal output secret from the expected plaintext.
